@@ -1,5 +1,4 @@
-import TdModel.Model.C30
-import TdModel.Model.C30Conc
+import TdModel.Model.C30Interp
 import TdModel.Prim.All
 open TdModel TdModel.C30
 
@@ -9,6 +8,8 @@ open TdModel TdModel.C30
   after it. `stored` = `dc,keyhex,idhex,salt,addrhex`; `notif` = `r|c,dc,keyhex,idhex,permhex,permidhex,salt,n|l|s`
 * `conc <hasStorage> <primaryDC> <stored|-> <notif>… | <results,…> <state> <sessSalt> <storedSalt|->` → `reachable` / `unreachable`: is there an
   interleaving of the notifications' atomic steps that ends in exactly that state with those results?
+* `script <hasStorage> <primaryDC> <stored|-> <act>…` (`S:<notif>` / `A:<i>`) → `<results,…> <state>` after exactly that
+  interleaving (notif kind `m` = migration to `dc`)
 * `restore <hasStorage> <primaryDC> nf|err|<stored>` → `ok <session>` / `err load` / `err corrupted`
   (SHA-1 = `Prims.real`)
 
@@ -44,7 +45,8 @@ def parseStored (t : String) : Option Stored :=
 def parseNotif (t : String) : Option Notif :=
   match t.splitOn "," with
   | [kind, dc, k, i, pk, pi, salt, f] => do
-    let kind ← (if kind == "r" then some Kind.regular else if kind == "c" then some Kind.cdn else none)
+    let kind ← (if kind == "r" then some Kind.regular else if kind == "c" then some Kind.cdn
+      else if kind == "m" then some Kind.migrate else none)
     let f ← (if f == "n" then some Fault.none else if f == "l" then some Fault.loadErr
       else if f == "s" then some Fault.saveErr else none)
     pure ⟨kind, ← dc.toInt?, ⟨← ofHex k, ← ofHex i⟩, ⟨← ofHex pk, ← ofHex pi⟩, ← salt.toInt?, f⟩
@@ -57,7 +59,13 @@ def mkSt (hs : String) (dc : String) (stored : Option Stored) : Option St := do
 
 def runShow (s : St) : List Notif → List String
   | [] => []
-  | n :: ns => let r := step s n; (showRes r.2 ++ "|" ++ showSt r.1) :: runShow r.1 ns
+  | n :: ns => let r := stepI s n; (showRes r.2 ++ "|" ++ showSt r.1) :: runShow r.1 ns
+
+/-- `S:<notif>` (an agent arrives) / `A:<i>` (agent `i` performs its next atomic step). -/
+def parseAct (t : String) : Option Act :=
+  if t.startsWith "S:" then (parseNotif (t.drop 2).toString).map Act.spawn
+  else if t.startsWith "A:" then ((t.drop 2).toString.toNat?).map Act.adv
+  else none
 
 def handle (line : String) : String :=
   match words line with
@@ -77,7 +85,7 @@ def handle (line : String) : String :=
     | some stored, some ns, [results, state, sessSalt, storedSalt] =>
       match mkSt hs dc stored with
       | some s =>
-        let ts : List Thread := ns.map fun n => ⟨n, 0, 0, "", .ok⟩
+        let ts : List Thread := ns.map Thread.new
         -- the two salts are a cheap pre-filter (sent redundantly by the harness); the full state decides
         let goal := fun (s : St) (ts : List Thread) =>
           toString s.session.salt == sessSalt &&
@@ -85,15 +93,28 @@ def handle (line : String) : String :=
             | some d => toString d.salt == storedSalt
             | none => storedSalt == "-") &&
           showSt s == state && ",".intercalate (ts.map fun t => showRes t.res) == results
-        if reach goal (5 * ts.length) s ts then "reachable" else "unreachable"
+        if reach goal (6 * ts.length) s ts then "reachable" else "unreachable"
       | none => "bad-op"
     | _, _, _ => "bad-op"
+  | "script" :: hs :: dc :: st :: acts =>
+    let stored := if st == "-" then some none else (parseStored st).map some
+    match stored, acts.mapM parseAct with
+    | some stored, some acts =>
+      match mkSt hs dc stored with
+      | some s =>
+        let c := crunI (cinit s) acts
+        let rs := (List.range c.count).map fun i => match c.threads i with
+          | some t => showRes t.res
+          | none => "?"
+        (if rs.isEmpty then "-" else ",".intercalate rs) ++ " " ++ showSt c.st
+      | none => "bad-op"
+    | _, _ => "bad-op"
   | ["restore", hs, dc, l] =>
     let lr : Option LoadRes :=
       if l == "nf" then some .notFound else if l == "err" then some .err else (parseStored l).map .data
     match lr, mkSt hs dc none with
     | some lr, some s =>
-      match restore Prims.real s lr with
+      match restoreI Prims.real s lr with
       | .ok s' => "ok " ++ showSess s'.session
       | .error .load => "err load"
       | .error .corrupted => "err corrupted"
